@@ -1,11 +1,11 @@
 #!/bin/bash
-# imps.sh Cxx : import /tmp/seed/Cxx-r5-out/m9,m10 into /verif/seeded and evaluate with the dev binary
+# imps.sh Cxx : import /tmp/seed/Cxx-r6-out/m9,m10 into /verif/seeded and evaluate with the dev binary
 P=$1
-for k in m9 m10; do
-  S=/tmp/seed/$P-r5-out/$k
+for k in m11 m12; do
+  S=/tmp/seed/$P-r6-out/$k
   [ -f $S/patch.diff ] || { echo "$P-$k missing"; continue; }
   mkdir -p /verif/seeded/$P-$k
   cp $S/patch.diff $S/meta.json /verif/seeded/$P-$k/
   cp $S/demo_test.go /verif/seeded/$P-$k/ 2>/dev/null || ls $S
-  /tmp/devben2.sh seeded/$P-$k | head -4
+  /tmp/devben3.sh seeded/$P-$k | head -4
 done
